@@ -116,6 +116,10 @@ func GenerateZkpKeys() (string, string) {
 }
 
 // Validate validates the set of params.
+// MaxReplicationFactor bounds the replication factor parameter (copies of a shard cannot
+// exceed the number of validators, itself a uint32).
+const MaxReplicationFactor = 1 << 32
+
 func (p Params) Validate() error {
 	challengeThreshold, err := math.LegacyNewDecFromStr(p.ChallengeThreshold)
 	if err != nil {
@@ -134,6 +138,10 @@ func (p Params) Validate() error {
 	}
 	if !replicationFactor.IsPositive() {
 		return errorsmod.Wrap(sdkerrors.ErrInvalidRequest, "replication factor must be negative")
+	}
+	// products with shard counts are taken in end-block code: keep them far inside the decimal range
+	if replicationFactor.GT(math.LegacyNewDec(MaxReplicationFactor)) {
+		return errorsmod.Wrap(sdkerrors.ErrInvalidRequest, "replication factor is too large")
 	}
 
 	if p.SlashEpoch == 0 {
